@@ -66,6 +66,22 @@ def dag(pol_small, pol_n4, seed, th):
     return out
 
 
+def adv(seed, th, cancel=False):
+    """Tape-driven adversarial scheduler (vf/adv.py): every legal decision sequence
+    with at most `bound` departures from 'place it now'."""
+    out = [("S-adv", W.s_adv(seed, max_n=2, bound=2 if not th else 3, cap=4000,
+                             cancel=cancel)),
+           ("S-adv3", W.s_adv(seed, max_n=3, bound=1 if not th else 2, cap=4000,
+                              cancel=cancel, releases=("two@1",) if not th
+                              else ("one", "two@1")))]
+    if th:
+        out.append(("S-adv-la", W.s_adv(
+            seed, max_n=3, bound=2, cap=4000, cancel=cancel,
+            modes={"la": {"lookahead": 5}, "la+retract": {"lookahead": 5,
+                                                          "retract": True}})))
+    return out
+
+
 def slices(prop, tier, seed):
     g = greedy()
     gp = W.GREEDY
@@ -81,6 +97,7 @@ def slices(prop, tier, seed):
         S.append(("S-cond", W.s_cond(gp, seed)))
         S.append(("S-plan", W.s_plan(pp if th else pp_small, seed,
                                      max_n=3 if th else 2)))
+        S += adv(seed, th)
         if th:
             S.append(("S-cw", W.s_cw(seed, k_max=3)))
             S.append(("S-time", W.s_time(gp, seed)))
@@ -95,6 +112,7 @@ def slices(prop, tier, seed):
                                      max_n=3 if th else 2)))
         S.append(("S-time", W.s_time({"EDF": gp["EDF"]} if not th else gp, seed,
                                      max_n=2 if not th else 3)))
+        S += adv(seed, th)
         if th:
             S.append(("S-closed", W.s_closed(g, seed)))
     elif prop == "C03":
@@ -105,6 +123,7 @@ def slices(prop, tier, seed):
         S.append(("S-var", W.s_var(gp, seed, max_n=3)))
         S.append(("S-plan", W.s_plan(pp if th else pp_small, seed,
                                      max_n=3 if th else 2, with_cond=th)))
+        S += adv(seed, th)
         if th:
             S.append(("S-res", W.s_res(gp, seed, full=True)))
             S.append(("S-cond", W.s_cond(gp, seed)))
@@ -116,6 +135,7 @@ def slices(prop, tier, seed):
                                      max_n=3 if th else 2)))
         S.append(("S-closed", W.s_closed(g, seed)))
         S.append(("S-cond", W.s_cond(gp, seed)))
+        S += adv(seed, th, cancel=True)
         if th:
             S.append(("S-plan", W.s_plan(pp, seed)))
             S.append(("S-var", W.s_var(gp, seed)))
@@ -126,6 +146,7 @@ def slices(prop, tier, seed):
         S.append(("S-plan", W.s_plan(pp if th else pp_small, seed,
                                      max_n=3 if th else 2)))
         S.append(("S-closed", W.s_closed(g, seed)))
+        S += adv(seed, th, cancel=True)
     elif prop == "C07":
         if th:
             S.append(("S-cond", W.s_cond(g, seed, clusters=("1x1", "1x2", "2w", "2p"),
@@ -154,6 +175,12 @@ def slices(prop, tier, seed):
                                      max_n=3 if th else 2)))
         S.append(("S-time", W.s_time({"EDF": gp["EDF"]} if not th else gp, seed,
                                      max_n=2 if not th else 3)))
+        # per-task deadlines inside one graph (the only stock way to get them)
+        S.append(("S-decomp", W.s_dag(g3, seed, max_n=3, clusters=("1x1", "2w"),
+                                      releases=("two@0",),
+                                      slacks=((0, 0), (100, 100)),
+                                      flags_extra={"decompose_deadlines": True})))
+        S += adv(seed, th, cancel=True)
     elif prop == "C10":
         S.append(("S-dag", W.s_dag(g3, seed, max_n=3)))
         S.append(("S-res", W.s_res(g3 if not th else g, seed, full=th)))
@@ -220,7 +247,8 @@ def with_bounds(sl, tier):
     bookkeeping; greedy worlds explore them with a smaller deviation bound."""
     def gen(it):
         for w in it:
-            if w["flags"].get("scheduler", "EDF") in ("EDF", "FIFO", "LSF"):
+            if w.get("adv") is None and \
+                    w["flags"].get("scheduler", "EDF") in ("EDF", "FIFO", "LSF"):
                 w["tape_bound"] = TAPE_BOUND[tier] - 1
             yield w
     return [(n, gen(it)) for n, it in sl]
